@@ -290,7 +290,9 @@ func Check04(c CaseHist, r *core.Rec) {
 	}
 }
 
-func Gen04(t *rapid.T) CaseHist { return genHistory(t, histOpts{maxOps: 10, start: "pair", resolve: true}) }
+func Gen04(t *rapid.T) CaseHist {
+	return genHistory(t, histOpts{maxOps: 10, start: "pair", resolve: true})
+}
 
 var P04 = core.Register(core.Prop[CaseHist]{
 	ID: "C04",
